@@ -316,7 +316,9 @@ def run(ctx):
       ctx.violation(key, what, {'config': cfg[0], 'history': hist})
   wtasks = [(i, s, None) for s in (None, 10) for i in ([None] + list(range(0, 40)))]
   wtasks += [(i, s, f) for f in FAULT_PATTERNS[1:] for s in (None, 10) for i in (None, 0, 3, 7)]
-  wtasks += [(i, s, None, sp) for sp in ('instance-over-larger', 'instance-only') for s in (None, 10) for i in (None, 2)]
+  wtasks += [(i, s, None, sp) for sp in ('instance-over-larger', 'instance-only') for s in (None, 10, 1) for i in (None, 2)]
+  # a shutdown rate BELOW the regular one (the operator wants a gentle shutdown): it is a limit like any other
+  wtasks += [(i, 1, None) for i in (0, 3, 7, 12)]
   wres = core.pmap(writer_case, wtasks, fresh=True)
   wcalls = wfaults = 0
   for st, bad in wres:
